@@ -114,6 +114,42 @@ type Wire struct {
 	// response is handed back to the coordinator
 	newTermHold map[string]chan struct{}
 	violations  []string
+	// log position of every client request seen on the wire: marker tag -> (term, offset)
+	tagPos map[string]*proto.EntryId
+}
+
+func (w *Wire) noteEntry(e *proto.LogEntry) {
+	tags := entryTagsOf(e)
+	if len(tags) == 0 {
+		return
+	}
+	w.mu.Lock()
+	defer w.mu.Unlock()
+	if w.tagPos == nil {
+		w.tagPos = map[string]*proto.EntryId{}
+	}
+	for _, t := range tags {
+		if _, ok := w.tagPos[t]; !ok {
+			w.tagPos[t] = &proto.EntryId{Term: e.Term, Offset: e.Offset}
+		}
+	}
+}
+
+// entryTagsOf extracts the marker tags ("m/<tag>" puts) of the client requests carried by a log entry.
+func entryTagsOf(e *proto.LogEntry) []string {
+	lev := &proto.LogEntryValue{}
+	if err := lev.UnmarshalVT(e.Value); err != nil {
+		return nil
+	}
+	var tags []string
+	for _, wr := range lev.GetRequests().Writes {
+		for _, p := range wr.Puts {
+			if len(p.Key) > 2 && p.Key[:2] == "m/" {
+				tags = append(tags, p.Key[2:])
+			}
+		}
+	}
+	return tags
 }
 
 func newWire(c *Cluster, h *History) *Wire {
@@ -444,6 +480,7 @@ func (c *repClient) Send(a *proto.Append) error {
 	}
 	s.sent[a.Entry.Offset] = a.Entry
 	s.mu.Unlock()
+	s.w.noteEntry(a.Entry)
 	s.w.hist.add(Event{Kind: "append", From: s.leader, To: s.follower, Term: a.Term, Offset: a.Entry.Offset, StreamID: s.id,
 		Detail: fmt.Sprintf("entryTerm=%d commit=%d", a.Entry.Term, a.CommitOffset)})
 	select {
